@@ -8,6 +8,19 @@ AUDIT_IMPORT = "From mathcomp Require Import all_ssreflect.\nFrom RlibV Require 
 EXPLAIN = "explain"
 AXIOM_ALLOW = []
 THEOREMS = [
+    ("c13_invariant",
+     "forall n k : nat, k.+1 < n -> let s := sieve_upto n k in let i := k.+1 in "
+     "[/\\ size (mnp s) = n /\\ size (isp s) = n, "
+     "forall m, m < n -> m <= i -> nth 0 (mnp s) m = if m < 2 then 0 else pdiv m, "
+     "forall m, m < n -> i < m -> nth 0 (mnp s) m = if ~~ prime m && (m %/ pdiv m <= i) then pdiv m else 0, "
+     "prs s = [seq p <- iota 0 i.+1 | prime p] & "
+     "forall m, m < n -> nth false (isp s) m = (m <= i) && prime m]"),
+    ("c13_min_prime", "forall N n : nat, 1 < n <= N -> min_prime (sieve N) n = pdiv n"),
+    ("c13_is_prime", "forall N n : nat, n <= N -> is_prime (sieve N) n = prime n"),
+    ("c13_primes", "forall N : nat, primes_of (sieve N) = [seq p <- iota 0 N.+1 | prime p]"),
+    ("c13_sizes", "forall N : nat, size (mnp (sieve N)) = N.+1 /\\ size (isp (sieve N)) = N.+1"),
+    ("c13_break_is_takewhile",
+     "forall (n i : nat) (ps m : seq nat), 0 < i -> 1 \\notin ps -> inner n i ps m = inner_tw n i ps m"),
 ]
 SHARD = 160
 SEARCH_MAX = 1000
